@@ -87,3 +87,66 @@ def calls_in(blocks, block_ids=None):
         if t["k"] == "call":
             out.append((i, norm_path(t.get("resp") or t["f"].get("path")), t))
     return out
+
+
+def control_deps(blocks, start=0):
+    """{block: set of branching blocks it is (transitively) control dependent on}.
+
+    Unwinding and panics are left out: an edge into a block from which no `return` can be reached
+    (a failed assertion, an `unreachable` arm, a panic call) is not an edge, so code after a bounds
+    check does not count as depending on the check. Control dependence is Ferrante/Ottenstein/Warren
+    over the post-dominator sets of what remains, with one virtual exit after the `return` blocks."""
+    nodes = sorted(n for n in reachable(blocks, start) if not blocks[n]["cleanup"])
+    rets = [n for n in nodes if blocks[n]["term"]["k"] == "return"]
+    preds = {n: [] for n in nodes}
+    for n in nodes:
+        for s in succs(blocks, n):
+            if s in preds:
+                preds[s].append(n)
+    live = set(rets)
+    work = list(rets)
+    while work:
+        x = work.pop()
+        for p in preds[x]:
+            if p not in live:
+                live.add(p)
+                work.append(p)
+    EXIT = -1
+    sc = {n: [s for s in succs(blocks, n) if s in live] for n in live}
+    for r in rets:
+        sc[r] = [EXIT]
+    sc[EXIT] = []
+    order = sorted(live)
+    allset = set(order) | {EXIT}
+    pdom = {n: set(allset) for n in order}
+    pdom[EXIT] = {EXIT}
+    changed = True
+    while changed:
+        changed = False
+        for n in reversed(order):
+            ss = [pdom[s] for s in sc[n]]
+            new = (set.intersection(*ss) if ss else set()) | {n}
+            if new != pdom[n]:
+                pdom[n] = new
+                changed = True
+    direct = {n: set() for n in order}
+    for a in order:
+        if len(sc[a]) < 2:
+            continue
+        for s in sc[a]:
+            # every node that post-dominates s but does not strictly post-dominate a
+            for x in pdom[s]:
+                if x != EXIT and (x == a or x not in pdom[a]):
+                    direct[x].add(a)
+    out = {}
+    for n in order:
+        seen = set()
+        work = list(direct[n])
+        while work:
+            x = work.pop()
+            if x in seen:
+                continue
+            seen.add(x)
+            work.extend(direct.get(x, ()))
+        out[n] = seen
+    return out
